@@ -48,8 +48,9 @@ class Loader(object):
         self.io_events = []
         self.leaks = 0
 
-    def load(self, name, cls='FCSFile'):
-        path = self.disk.materialise(name)
+    def load(self, name, cls='FCSFile', rewrite=True):
+        # rewrite=False boots the code again on the very same materialised file (same inode, same mtime)
+        path = self.disk.materialise(name) if rewrite else self.disk.path(name)
         ev = []
         seam = seams.OpenSeam(ev, root=self.disk.root)
         out = {'io': ev}
@@ -109,8 +110,8 @@ class C01Machine(Machine):
 
     def plan(self, tier):
         if tier == 'quick':
-            return {'runs': 24000, 'budget_s': 100, 'batch': 250}
-        return {'runs': 1200000, 'budget_s': 1500, 'batch': 500}
+            return {'runs': 60000, 'budget_s': 100, 'batch': 250}
+        return {'runs': 3000000, 'budget_s': 1500, 'batch': 500}
 
     def generate(self, rng, tier, index):
         if index % 10 == 9:
@@ -135,7 +136,7 @@ class C01Machine(Machine):
                 if spec['byteord'] == '':
                     spec['byteord'] = '1,2,3'
             return {'arm': 'unsupported', 'kind': kind, 'spec': spec}
-        return {'arm': 'intact', 'spec': fcsgen.gen_spec(rng)}
+        return {'arm': 'intact', 'spec': fcsgen.gen_spec(rng), 'reload': rng.chance(0.3)}
 
     def summarise(self, case):
         s = dict(case['spec'])
@@ -200,6 +201,27 @@ class C01Machine(Machine):
                     if o['leaked']:
                         out['probes']['fd_left_open_after_successful_load'] = \
                             out['probes'].get('fd_left_open_after_successful_load', 0) + 1
+                # storage history: the same durable file booted again after the first sample was modified in memory
+                if case.get('reload') and o['kind'] == 'ok' and o.get('obj') is not None:
+                    d = o['obj']
+                    try:
+                        if d.size:
+                            d[...] = 0 if spec['datatype'] == 'I' else -1.0
+                        d.text['$TOT'] = 'modified'
+                        d.text['__verif__'] = 'x'
+                        d.analysis['__verif__'] = 'x'
+                    except Exception as e:
+                        out['violations'].append(violation('C01/values', 'reload/modify-raises/' + type(e).__name__, str(e)[:200]))
+                    for cls in ('FCSData', 'FCSFile'):
+                        o2 = ld.load('f.fcs', cls, rewrite=False)
+                        out['evals'] += 1
+                        log.add('reload', cls, o2['kind'], arr_fp(o2['data']) if o2['kind'] == 'ok' else None)
+                        if o2['kind'] != 'ok' or not data_equal(o2['data'], T['data']) or o2['text'] != T['text'] \
+                                or o2['analysis'] != T['analysis']:
+                            out['violations'].append(violation(
+                                'C01/values', 'reload/%s/%s' % (cls, lc),
+                                'second load of the unchanged file after the first sample was modified in memory differs from the file'))
+                    out['probes']['reload_after_in_memory_modification'] = 1
                 if len(spec['events']) >= 1:
                     rc = sorted({('full' if int(r) == 1 << w else 'pow2' if int(r) & (int(r) - 1) == 0 else 'odd')
                                  for r, w in zip(spec['ranges'], spec['widths'])})
@@ -271,8 +293,8 @@ class C16Machine(Machine):
 
     def plan(self, tier):
         if tier == 'quick':
-            return {'runs': 1600, 'budget_s': 100, 'batch': 20}
-        return {'runs': 60000, 'budget_s': 1500, 'batch': 40}
+            return {'runs': 6000, 'budget_s': 100, 'batch': 20}
+        return {'runs': 250000, 'budget_s': 1500, 'batch': 40}
 
     def generate(self, rng, tier, index):
         spec = fcsgen.gen_spec(rng, small=True)
